@@ -30,6 +30,9 @@ type Chain struct {
 	// Fault, if set, is consulted before every RPC call (index, method).
 	Fault func(n int, method string) error
 	calls int
+	// TxPerBlock > 0: the open block is closed as soon as it holds that many transactions (the
+	// proposer's block size limit); 0: only the harness closes blocks.
+	TxPerBlock int
 }
 
 // DeliveredTx records one transaction the chain executed.
@@ -79,6 +82,9 @@ func (c *Chain) submitLocked(tx []byte) (abcitypes.ResponseCheckTx, *abcitypes.R
 		}
 	}
 	c.openTxs = append(c.openTxs, rec)
+	if c.TxPerBlock > 0 && len(c.openTxs) >= c.TxPerBlock {
+		c.closeLocked()
+	}
 	return chk, &d
 }
 
@@ -86,6 +92,10 @@ func (c *Chain) submitLocked(tx []byte) (abcitypes.ResponseCheckTx, *abcitypes.R
 func (c *Chain) CloseBlock() *BlockResult {
 	c.mu.Lock()
 	defer c.mu.Unlock()
+	return c.closeLocked()
+}
+
+func (c *Chain) closeLocked() *BlockResult {
 	c.ensureOpen()
 	br := c.open.Close()
 	c.open = nil
